@@ -1,4 +1,4 @@
-from planlib import geo
+from planlib import geo, desc_fuzz
 
 
 # ------------------------------------------------------------------------------------------- C09
@@ -33,6 +33,7 @@ PLAN = dict(
     assumptions=["p odd for automorphisms; INT64_MIN excluded (statement: p in (-2^63,2^63))",
                  "oracle: u128 index arithmetic + negation in the element type"],
     quick=_c09("quick"), thorough=_c09("thorough"),
+    fuzz=desc_fuzz("C09", fix=dict(k=(0, 12), k1=(0, 11), k2=(0, 11))),
     required_classes=dict(all=["op:rotate", "op:automorphism", "op:mul_xp_minus_one", "p<0", "p_outside_[-2nn,2nn)",
                                "aut:p==-1", "aut:p==n+1", "aut:p==n-1", "aut:negate-at-depth",
                                "aut:negamirror-at-depth", "module:FFT64", "module:NTT120",
